@@ -1,7 +1,9 @@
 package mcrt
 
 import (
+	"context"
 	"testing"
+	"time"
 )
 
 // two threads taking two mutexes in opposite order: deadlock needs 1 preemption
@@ -137,4 +139,44 @@ func TestPipe(t *testing.T) {
 	}}
 	e.All()
 	t.Logf("execs=%d", e.Stats.Executions)
+}
+
+func TestSelectSendCaseAndTimeout(t *testing.T) {
+	outcomes := map[string]int{}
+	e := &Explorer{MaxPreempt: 2, MaxDelay: 2, MaxSteps: 10000, Body: func() {
+		ch := make(chan int, 1)
+		got := ""
+		var wg WaitGroup
+		wg.Add(2)
+		for i := 0; i < 2; i++ {
+			i := i
+			GoNamed("sender", func() {
+				defer wg.Done()
+				switch Select(true, SendCase(ch)) {
+				case 0:
+					SendNow(ch, i)
+					got += "s"
+				default:
+					got += "d"
+				}
+			})
+		}
+		wg.Wait()
+		ctx, cancel := WithTimeout(context.Background(), time.Second)
+		defer cancel()
+		Recv(ctx.Done())
+		if ctx.Err() != context.DeadlineExceeded {
+			got += "!"
+		}
+		outcomes[got]++
+	}, Check: func(r *Result) bool {
+		if r.Status != StComplete {
+			t.Errorf("status %s %s %v", r.Status, r.Infra, r.Blocked)
+		}
+		return true
+	}}
+	e.All()
+	if outcomes["sd"] == 0 || len(outcomes) != 1 {
+		t.Errorf("outcomes %v", outcomes)
+	}
 }
